@@ -124,11 +124,11 @@ MUTANTS = [
     ("m45-change-action-old", I + "change_action.hpp",
      "return Control< Rule >::template match< A, M, NewAction, Control >( in, st... );", "return TAO_PEGTL_NAMESPACE::match< Rule, A, M, Action, Control >( in, st... );", ["C13"], ""),
     ("m46a-enable-forwards", I + "internal/enable.hpp",
-     "match< apply_mode::action, M, Action, Control >", "match< A, M, Action, Control >", ["C13"], ""),
+     "match< apply_mode::action, M, Action, Control >", "match< apply_mode::nothing, M, Action, Control >", ["C13"], "enable<> does not enable"),
     ("m46b-disable-forwards", I + "internal/disable.hpp",
-     "match< apply_mode::nothing, M, Action, Control >", "match< A, M, Action, Control >", ["C13"], ""),
+     "match< apply_mode::nothing, M, Action, Control >", "match< apply_mode::action, M, Action, Control >", ["C13"], "disable<> does not disable"),
     ("m47-at-forwards-action", I + "internal/at.hpp",
-     "match< apply_mode::nothing, rewind_mode::optional, Action, Control >", "match< A, rewind_mode::optional, Action, Control >", ["C13"], ""),
+     "match< apply_mode::nothing, rewind_mode::optional, Action, Control >", "match< apply_mode::action, rewind_mode::optional, Action, Control >", ["C13"], "actions run inside at<>"),
     ("m48-depth-guard-exception", I + "contrib/input_with_depth.hpp",
      "         ~depth_guard()\n         {\n            --m_depth;\n         }", "         ~depth_guard()\n         {\n            if( std::uncaught_exceptions() == 0 ) {\n               --m_depth;\n            }\n         }", ["C18"], "needs <exception>"),
     ("m49-limit-depth-ge", I + "contrib/limit_depth.hpp",
